@@ -76,8 +76,8 @@ fn sleep_ms(ms: u32) {
 pub fn default_runs(prop: &str, tier: &str) -> (u64, u64) {
     // (Tier A runs, Tier B runs)
     match (prop, tier) {
-        ("C03", "quick") => (40000, 600),
-        ("C03", _) => (2000000, 20000),
+        ("C03", "quick") => (40000, 3000),
+        ("C03", _) => (2000000, 150000),
         ("C10", "quick") => (6000, 600),
         ("C10", _) => (200000, 20000),
         ("C14", "quick") => (30000, 3000),
@@ -329,6 +329,14 @@ pub fn check_main(args: CheckArgs) -> i32 {
             }
         }
     }
+
+    let mut worker_errors: Vec<String> = Vec::new();
+    for src in [&agg.stats, &agg_b.stats] {
+        if let Some(set) = src.distinct.get("harness_errors") {
+            worker_errors.extend(set.iter().take(5).cloned());
+        }
+    }
+    agg.harness_errors.extend(worker_errors);
 
     // ---- crashes -> replay files
     let mut all_viol: Vec<Replay> = Vec::new();
